@@ -49,6 +49,8 @@ CHECKS = {
             "Bounded: universes <= 4 inner nodes, <= 10 edges, multiplicity <= 3; 'Confirmed over all paths' with reachability twin.", "CrossHair/z3", "5/C14"),
     "C19": (EX, "CrossHair on each constructor + solve with symbolic k, coverage, edge-weight codes, ignored-edge and corruption selectors; the documented-validity oracle is traced, the library call runs concretely per explored region",
             "Exploration (symbolic-input bug finding): one fixed DAG / cyclic graph; 'Confirmed over all paths' means every region of the oracle over the stated small domains behaved.", "CrossHair; oracle transcribed from the property and docstrings", "5/C19"),
+    "C20": (EX, "CrossHair on the real read_graph/read_graphs with a symbolic file structure (edge subset, weights, header/blank/#S counts, blocks, corruption kind and position) and one symbolic short edge line; stored width compared with a z3 cover spec",
+            "Exploration: graphs over 4 node names / 7 candidate edges; the symbolic-string harness is bug-finding only (reported inconclusive when not confirmed).", "CrossHair; z3 spec for the stored width", "5/C20"),
 }
 
 NOT_YET = {}
